@@ -88,10 +88,17 @@ type c14Case struct {
 	// UseFunc: the scaled timeouts are installed as TimeoutFunc (Timeout == 0)
 	// in the source map before StateMap.Copy() is taken
 	UseFunc bool
+	// Backlog: while the local side holds agency in the timed state, the raw
+	// peer has this many further messages delivered ahead of its turn (they sit
+	// in the receive queue and cannot be consumed before the local side moves)
+	Backlog int
+	// Partial: while the peer holds agency in the timed state, the first half
+	// of its next message has arrived and then nothing more
+	Partial bool
 }
 
 func (c c14Case) String() string {
-	return fmt.Sprintf("%s/%s state=%s kind=%s delta=%v timeoutfunc=%v", c.Spec.Name, roleName(c.Role), c.Target, c.Kind, c.Delta, c.UseFunc)
+	return fmt.Sprintf("%s/%s state=%s kind=%s delta=%v timeoutfunc=%v backlog=%d partial=%v", c.Spec.Name, roleName(c.Role), c.Target, c.Kind, c.Delta, c.UseFunc, c.Backlog, c.Partial)
 }
 
 type c14Result struct {
@@ -357,6 +364,45 @@ func attemptC14Case(c c14Case, probe *noiseProbe) (res c14Result) {
 		}
 	}
 
+	// ---- backlog: the peer's bytes that are already there while the timer runs
+	if (c.Backlog > 0 || c.Partial) && (c.Kind == "stall" || c.Kind == "fast") {
+		localHolds := agencyOf(sm, s) == roleAgency(c.Role)
+		switch {
+		case c.Backlog > 0 && localHolds:
+			// prefer a message that is legal once the local side has moved
+			mv, _ := pickMover(sp, sm, s)
+			after, _ := permits(sm, nil, s, mv)
+			ki := 0
+			if agencyOf(sm, after) == roleAgency(otherRole(c.Role)) {
+				if perm, _ := sp.splitKinds(sm, after); len(perm) > 0 {
+					ki = perm[0]
+				}
+			}
+			before := r.snap().Accounted
+			var payload []byte
+			for i := 0; i < c.Backlog; i++ {
+				payload = append(payload, sp.mustBuild(sp.Kinds[ki], uint64(50+i)).Bytes...)
+			}
+			if err := r.peerSend(payload, 0); err != nil {
+				return discard("backlog_send_failed")
+			}
+			want := before + c.Backlog
+			if !r.waitFor(2*time.Second, func() bool { return r.accounted >= want || len(r.errs) > 0 }) {
+				return discard("backlog_not_taken_in")
+			}
+		case c.Partial && !localHolds:
+			mv, _ := pickMover(sp, sm, s)
+			if len(mv.Bytes) < 2 {
+				return discard("no_partial")
+			}
+			if err := r.peerSend(mv.Bytes[:len(mv.Bytes)/2], 0); err != nil {
+				return discard("backlog_send_failed")
+			}
+		default:
+			return discard("backlog_not_applicable")
+		}
+	}
+
 	switch c.Kind {
 	case "initial", "untimed":
 		// nothing may happen for 4T: the initial state never arms a timer, a
@@ -382,7 +428,15 @@ func attemptC14Case(c c14Case, probe *noiseProbe) (res c14Result) {
 		m, leaves := pickMover(sp, sm, s)
 		time.Sleep(time.Until(enteredAt.Add(c.Delta)))
 		n := len(r.snap().transitions())
-		movedAt, err := move(s, m)
+		var movedAt time.Time
+		var err error
+		if c.Partial && agencyOf(sm, s) != roleAgency(c.Role) {
+			// the first half is already there: deliver the rest
+			err = r.peerSend(m.Bytes[len(m.Bytes)/2:], 0)
+			movedAt = time.Now()
+		} else {
+			movedAt, err = move(s, m)
+		}
 		if err != nil && len(r.snap().Errs) == 0 {
 			return discard("move_failed")
 		}
@@ -415,6 +469,15 @@ func attemptC14Case(c c14Case, probe *noiseProbe) (res c14Result) {
 				continue
 			}
 			// the holder moved in time; did the engine have a calm machine?
+			// a timeout that belongs to a LATER stay in the timed state is legitimate:
+			// the conversation (e.g. a queued peer message) led back into it and
+			// nobody moved for T after that
+			if trsNow := snap.transitions(); len(trsNow) > n+1 {
+				lastTr := trsNow[len(trsNow)-1]
+				if lastTr.Err == "" && statesEq(lastTr.To, c.Target) && !lastTr.At.After(snap.ErrAt[i]) {
+					return c14Result{Verdict: "pass"}
+				}
+			}
 			// budget: the move, then up to 8 goroutine hand-offs each as late as the probe saw
 			if samples > 0 && movedAt.Sub(enteredAt)+8*late+10*time.Millisecond <= c14T*9/10 {
 				return c14Result{Verdict: "violation", LoadSensitive: true, Key: keyBase + "fast:spurious-timeout",
@@ -638,7 +701,7 @@ func attemptC14Case(c c14Case, probe *noiseProbe) (res c14Result) {
 
 func TestC14(t *testing.T) {
 	rec := evi.New(t, "C14", evi.Exploration,
-		"targets = every reachable state with agency of every exported state map x both roles (enumerated). The state map is copied and its timeouts scaled: T=150ms for the state(s) under test. Case kinds: slow (timed state, agency holder - raw peer or harness caller - moves after delta in [1.8T,2.5T]: a timeout error must be reported and the protocol must stop, the late message must not be processed), fast (delta in [0,0.5T]: no timeout error up to 1.6T after entry, i.e. also no stale timer), untimed (state without timeout reached quickly through states that all have timeout T: silence for 4T), initial (the initial state given timeout T: silence for 4T after Start), progress (all timed states T, 3-8 steps each after <= 0.5T: no timeout although the total exceeds T), stall (timed state, nobody moves: the timeout error must come; only 'none within 50T+5s' is a violation), every scaled map is built as a source map and handed to the Protocol through StateMap.Copy() as the real clients do, and in half of the cases the timeouts are installed as TimeoutFunc with Timeout==0; a structural oracle compares every package-level state map with its Copy() (Timeout, TimeoutFunc nil-ness and range, limits, agency, edges); loop (timed state with an edge back into itself, e.g. block-fetch Streaming/Block, in both roles so that the sender of the self-loop message is the raw peer or the harness caller: messages at gaps of 0.2T-0.5T for a stay of 1.6T-2.5T must not produce a timeout - each message restarts the limit - and a stall afterwards must still time out). client (a real protocol client - block-fetch, chain-sync, handshake, keep-alive, leios-*, local-state-query, local-tx-monitor, local-tx-submission, peer-sharing, local-message-*, message-submission - whose timeout option is set to T is walked into the state the option belongs to and the server stalls: the timeout must fire, not before 0.9T). First a sweep over all targets with deltas derived from the seed, then the client table, then rapid-drawn batches; 8 cases run concurrently. Scheduling-noise guard: times are measured (hook event time of the state entry, time of the error, time of the move) and a probe goroutine measures wake-up lateness; a verdict that noise could explain is discarded and counted, never reported. Sound-under-load rule: a timeout error less than 0.9T after the last state change is always a violation. Non-trivial = a slow or fast or progress case that reached a verdict; distinct by (map, role, state, kind, delta bucket of 10ms).")
+		"targets = every reachable state with agency of every exported state map x both roles (enumerated). The state map is copied and its timeouts scaled: T=150ms for the state(s) under test. Case kinds: slow (timed state, agency holder - raw peer or harness caller - moves after delta in [1.8T,2.5T]: a timeout error must be reported and the protocol must stop, the late message must not be processed), fast (delta in [0,0.5T]: no timeout error up to 1.6T after entry, i.e. also no stale timer), untimed (state without timeout reached quickly through states that all have timeout T: silence for 4T), initial (the initial state given timeout T: silence for 4T after Start), progress (all timed states T, 3-8 steps each after <= 0.5T: no timeout although the total exceeds T), stall (timed state, nobody moves - also with 1 or 3 peer messages delivered ahead of turn while the library side holds agency, and with half of the peer's next message delivered while the peer holds agency; the same backlog in fast cases where the holder still answers in time: the timeout error must come; only 'none within 50T+5s' is a violation), every scaled map is built as a source map and handed to the Protocol through StateMap.Copy() as the real clients do, and in half of the cases the timeouts are installed as TimeoutFunc with Timeout==0; a structural oracle compares every package-level state map with its Copy() (Timeout, TimeoutFunc nil-ness and range, limits, agency, edges); loop (timed state with an edge back into itself, e.g. block-fetch Streaming/Block, in both roles so that the sender of the self-loop message is the raw peer or the harness caller: messages at gaps of 0.2T-0.5T for a stay of 1.6T-2.5T must not produce a timeout - each message restarts the limit - and a stall afterwards must still time out). client (a real protocol client - block-fetch, chain-sync, handshake, keep-alive, leios-*, local-state-query, local-tx-monitor, local-tx-submission, peer-sharing, local-message-*, message-submission - whose timeout option is set to T is walked into the state the option belongs to and the server stalls: the timeout must fire, not before 0.9T). First a sweep over all targets with deltas derived from the seed, then the client table, then rapid-drawn batches; 8 cases run concurrently. Scheduling-noise guard: times are measured (hook event time of the state entry, time of the error, time of the move) and a probe goroutine measures wake-up lateness; a verdict that noise could explain is discarded and counted, never reported. Sound-under-load rule: a timeout error less than 0.9T after the last state change is always a violation. Non-trivial = a slow or fast or progress case that reached a verdict; distinct by (map, role, state, kind, delta bucket of 10ms).")
 	defer rec.Finish()
 	rec.Assume("the verif tracer emits the transition event before the state loop arms the timer of the new state",
 		"Go timers never fire early",
@@ -671,6 +734,14 @@ func TestC14(t *testing.T) {
 			desc := fmt.Sprintf("%s/%s/%s/%s/%d", c.Spec.Name, roleName(c.Role), c.Target, c.Kind, c.Delta/(10*time.Millisecond))
 			if c.Kind == "progress" || c.Kind == "loop" {
 				desc += fmt.Sprint(c.Picks, c.Deltas)
+			}
+			if c.Backlog > 0 {
+				desc += fmt.Sprintf("/backlog%d", c.Backlog)
+				rec.Class("timer_runs_with_peer_messages_queued_ahead_of_turn")
+			}
+			if c.Partial {
+				desc += "/partial"
+				rec.Class("timer_runs_with_partial_peer_message_pending")
 			}
 			if c.UseFunc {
 				desc += "/func"
@@ -727,6 +798,17 @@ func TestC14(t *testing.T) {
 				c14Case{Spec: tg.Spec, Role: tg.Role, Target: tg.State, Kind: "slow", Delta: slowDelta(u), UseFunc: i%2 == 0},
 				c14Case{Spec: tg.Spec, Role: tg.Role, Target: tg.State, Kind: "fast", Delta: fastDelta(u >> 20), UseFunc: i%2 == 1},
 				c14Case{Spec: tg.Spec, Role: tg.Role, Target: tg.State, Kind: "stall", UseFunc: true})
+			if tg.Spec.Map[tg.State].Agency == roleAgency(tg.Role) {
+				// the library side holds agency and stalls / answers in time while the peer is ahead of its turn
+				sweep = append(sweep,
+					c14Case{Spec: tg.Spec, Role: tg.Role, Target: tg.State, Kind: "stall", UseFunc: i%2 == 1, Backlog: 1},
+					c14Case{Spec: tg.Spec, Role: tg.Role, Target: tg.State, Kind: "stall", UseFunc: i%2 == 0, Backlog: 3},
+					c14Case{Spec: tg.Spec, Role: tg.Role, Target: tg.State, Kind: "fast", Delta: fastDelta(u >> 30), Backlog: 1})
+			} else {
+				sweep = append(sweep,
+					c14Case{Spec: tg.Spec, Role: tg.Role, Target: tg.State, Kind: "stall", UseFunc: i%2 == 1, Partial: true},
+					c14Case{Spec: tg.Spec, Role: tg.Role, Target: tg.State, Kind: "fast", Delta: fastDelta(u >> 30), Partial: true})
+			}
 		default:
 			sweep = append(sweep, c14Case{Spec: tg.Spec, Role: tg.Role, Target: tg.State, Kind: "untimed"})
 		}
